@@ -20,6 +20,7 @@ type PropSpec struct {
 	Functions      []string `json:"functions"`       // under contract: verified against their contracts
 	Sweep          []string `json:"sweep"`           // safety-only (no-panic) verification, default contract `requires true`
 	Lemmas         []string `json:"lemmas"`          // lemma names
+	AssumeChecks   map[string]string `json:"assume_checks"` // run-time checks accepted as ENVIRONMENT assumptions (obligation name -> why): not remote input, invariant of a decoder/constructor that is not under contract; listed, never counted as discharged
 	Exclude        []string `json:"exclude"`         // function literals of listed functions that are NOT verified (named in not_decided)
 	MinObligations int      `json:"min_obligations"` // vacuity guard: the run must generate at least this many
 	NotDecided     []string `json:"not_decided"`
@@ -153,7 +154,7 @@ func cmdCheck(args []string) {
 		}
 		lemmas = append(lemmas, found)
 	}
-	tmo := 10 * time.Second
+	tmo := 20 * time.Second
 	if tier == "thorough" {
 		tmo = 60 * time.Second
 	}
@@ -164,7 +165,7 @@ func cmdCheck(args []string) {
 	outDir := filepath.Join(od, "out", id)
 	os.RemoveAll(outDir)
 	os.MkdirAll(outDir, 0o755)
-	res := V.verifyFunctions(fns, lemmas, solveOpts{timeout: tmo, seed: seed, outDir: outDir, workers: 16})
+	res := V.verifyFunctions(fns, lemmas, solveOpts{timeout: tmo, seed: seed, outDir: outDir, workers: 10})
 	structure = append(structure, res.Structure...)
 	structure = append(structure, V.axiomErrs...)
 
@@ -179,6 +180,8 @@ func cmdCheck(args []string) {
 	os.MkdirAll(replayDir, 0o755)
 	violations := 0
 	knownHit := 0
+	assumedHit := 0
+	var assumedList []string
 	var lines []string
 	sortObls(res.Obls)
 	bySolver := map[string]int{}
@@ -189,6 +192,12 @@ func cmdCheck(args []string) {
 			if o.Ms > 5000 {
 				fragile = append(fragile, fmt.Sprintf("%s (%d ms)", o.Name, o.Ms))
 			}
+			continue
+		}
+		if why, ok := spec.AssumeChecks[o.Name]; ok {
+			o.Known = true
+			assumedHit++
+			assumedList = append(assumedList, o.Name+": "+why)
 			continue
 		}
 		if what, ok := known[o.Name]; ok {
@@ -251,6 +260,9 @@ func cmdCheck(args []string) {
 		"tool: go/ssa + go/types front end, the VC generator in /verif/engine, z3 4.8.12 / z3 5.1.0 / cvc5 1.0.3",
 		"sequential reasoning: one goroutine; no interleavings are explored")
 	trusted = append(trusted, spec.Assumptions...)
+	for _, a := range assumedList {
+		trusted = append(trusted, "run-time check assumed to pass (environment invariant not under contract): "+a)
+	}
 	coversSat, coversOther := 0, 0
 	for _, c := range res.Covers {
 		if c.Result == "sat" {
@@ -273,7 +285,8 @@ func cmdCheck(args []string) {
 		"violations":  violations,
 		"assumptions": trusted,
 		"coverage": map[string]interface{}{
-			"obligations":                len(res.Obls) - knownHit,
+			"obligations":                len(res.Obls) - knownHit - assumedHit,
+			"environment_checks_assumed": assumedList,
 			"obligations_generated":      len(res.Obls),
 			"discharged":                 discharged,
 			"known_findings":             knownHit,
@@ -298,8 +311,8 @@ func cmdCheck(args []string) {
 	}
 	os.MkdirAll(filepath.Join(od, "evidence"), 0o755)
 	writeJSON(filepath.Join(od, "evidence", id+".json"), ev)
-	fmt.Printf("property=%s tier=%s functions=%d obligations=%d discharged=%d known-findings=%d violations=%d covers=%d/%d wall=%.1fs\n",
-		id, tier, len(fns), len(res.Obls), discharged, knownHit, violations, coversSat, coversSat+coversOther, time.Since(start).Seconds())
+	fmt.Printf("property=%s tier=%s functions=%d obligations=%d discharged=%d known-findings=%d environment-assumed=%d violations=%d covers=%d/%d wall=%.1fs\n",
+		id, tier, len(fns), len(res.Obls), discharged, knownHit, assumedHit, violations, coversSat, coversSat+coversOther, time.Since(start).Seconds())
 	if violations > 0 {
 		os.Exit(1)
 	}
